@@ -3,7 +3,9 @@ package run
 import (
 	"encoding/json"
 	"os"
+	"runtime"
 	"strconv"
+	"time"
 	"testing"
 	"testing/cryptotest"
 
@@ -59,6 +61,17 @@ func TestSim(t *testing.T) {
 	if mode == "gen" {
 		write(p)
 		return
+	}
+	if os.Getenv("SIM_STACKDUMP") != "" {
+		go func() {
+			for i := 0; i < 3; i++ {
+				time.Sleep(4 * time.Second)
+				buf := make([]byte, 1<<20)
+				n := runtime.Stack(buf, true)
+				os.Stderr.Write(buf[:n])
+				os.Stderr.WriteString("\n=====DUMP=====\n")
+			}
+		}()
 	}
 	cryptotest.SetGlobalRandom(t, p.Seed)
 	res := scen.Run(t, p, keep)
